@@ -1022,10 +1022,11 @@ class StructOf(DataType):
             for key, val in value.items():
                 if val is not None:  # goodie: allow None instead of missing key
                     result[key] = self.members[key](val)
-            return ImmutableDict(result)
         except Exception as e:
             errcls = RangeError if isinstance(e, RangeError) else WrongTypeError
             raise errcls('can not convert struct element %s' % key) from e
+        self.check_missing(result, self.client)
+        return ImmutableDict(result)
 
     def validate(self, value, previous=None):
         self.check_type(value, True)
@@ -1034,10 +1035,19 @@ class StructOf(DataType):
             for key, val in value.items():
                 if val is not None:  # goodie: allow None instead of missing key
                     result[key] = self.members[key].validate(val)
-            return ImmutableDict(result)
         except Exception as e:
             errcls = RangeError if isinstance(e, RangeError) else WrongTypeError
             raise errcls('struct element %s is invalid' % key) from e
+        self.check_missing(result, True)
+        return ImmutableDict(result)
+
+    def check_missing(self, result, allow_optional):
+        """a member given as None counts as missing"""
+        missing = set(self.members) - set(result)
+        if allow_optional:
+            missing -= set(self.optional)
+        if missing:
+            raise WrongTypeError(f"missing struct elements: {', '.join(missing)}")
 
     def check_type(self, value, allow_optional=False):
         if not isinstance(value, dict):
